@@ -558,7 +558,12 @@ class StmtMixin:
         return con.loops.get(o)
 
     def s_While(self, st, fr):
-        lc = self.loop_contract(st, fr)
+        try:
+            lc = self.loop_contract(st, fr)
+        except Undecided:
+            # the contract written for this position is about another loop (the loop was rewritten): no contract applies - one iteration is explored for
+            # refutations (while_unrolled), then the path is given up as undecided
+            lc = None
         if lc is None:
             return self.while_unrolled(st, fr)
         self.loop_with_contract(st, fr, lc, kind='while')
@@ -570,6 +575,19 @@ class StmtMixin:
             t = self.truth(c)
             ts = t if isinstance(t, bool) else smt.simp(t)
             if not (isinstance(ts, bool) or z3.is_true(ts) or z3.is_false(ts)):
+                # No contract: nothing can be PROVED about this loop.  But the state it is entered in is the real one, so one iteration from here is a genuine
+                # execution prefix: obligations met in it (callee preconditions, at-all-points clauses, blocking) are real, and a refutation there is reported.
+                # The path is then given up as undecided; the path on which the loop is not entered at all goes on normally.
+                if _ == 0 and ex.branch(ts, f'L{st.lineno}:while-entered'):
+                    ex.note(f'L{st.lineno}: loop without contract - one iteration explored for refutations, then undecided')
+                    try:
+                        self.exec_block(st.body, fr)
+                    except (BreakSig, ContinueSig):
+                        pass
+                    raise Undecided(f'while loop at line {st.lineno} of {fr.fi.qualname} has a symbolic condition and no loop contract (first iteration explored)')
+                elif _ == 0:
+                    self.exec_block(st.orelse, fr)
+                    return
                 raise Undecided(f'while loop at line {st.lineno} of {fr.fi.qualname} has a symbolic condition and no loop contract')
             if not (ts if isinstance(ts, bool) else z3.is_true(ts)):
                 self.exec_block(st.orelse, fr)
